@@ -97,6 +97,10 @@ func TestVerif_C13_Revocation(t *testing.T) {
 	defer SuspendSequenceBatching()()
 
 	cacheOptions := DefaultCacheOptions()
+	if ql := vEnvInt("VERIF_C13_QLIMIT", 0); ql > 0 {
+		// small channel query page: the pagination loops of changesFeed / buildRevokedFeed run even without a client limit
+		cacheOptions.ChannelQueryLimit = ql
+	}
 	db, ctx := SetupTestDBWithOptions(t, DatabaseContextOptions{CacheOptions: &cacheOptions, ClientPartitionWindow: base.DefaultClientPartitionWindow})
 	defer db.Close(ctx)
 	db.AllowEmptyPassword = true
